@@ -2,10 +2,10 @@ package core
 
 // Verification harness for C03 (every media publish or read is authorized for that path and
 // action). Injected by /verif through -overlay. A real Core is started in-package from a
-// generated configuration (RTSP, RTMP, HLS, API on free ports; the users of the case file);
+// generated configuration (RTSP, RTMP, SRT, HLS, WebRTC, MoQ, API on free ports; the users of the case file);
 // the path manager's authManager field (an interface) is wrapped with a recorder that logs
 // every Authenticate request and its outcome. Every scenario of the case file is played by a
-// real client (gortsplib, gortmplib, net/http) on its own fresh path name; configuration
+// real client (gortsplib, gortmplib, gosrt, net/http, the repository's WHIP client, quic-go for MoQ) on its own fresh path name; configuration
 // reloads (another entry / a non-hot-reloadable field / only a hot-reloadable field of the same
 // entry / the name re-homed to a new exact entry) are made through the Core's own API methods
 // between authorization and attachment, and what they did to the configuration in force is
@@ -15,7 +15,10 @@ package core
 
 import (
 	"bufio"
+	"bytes"
 	"context"
+	"crypto/tls"
+	"encoding/base64"
 	"encoding/json"
 	"fmt"
 	"net"
@@ -36,11 +39,20 @@ import (
 	"github.com/bluenviron/mediacommon/v2/pkg/formats/mpegts"
 	tscodecs "github.com/bluenviron/mediacommon/v2/pkg/formats/mpegts/codecs"
 	srt "github.com/datarhei/gosrt"
+	"github.com/pion/rtp"
+	pwebrtc "github.com/pion/webrtc/v4"
+	"github.com/quic-go/quic-go"
 
 	"github.com/bluenviron/mediamtx/internal/auth"
 	"github.com/bluenviron/mediamtx/internal/conf"
 	"github.com/bluenviron/mediamtx/internal/defs"
 	"github.com/bluenviron/mediamtx/internal/logger"
+	"github.com/bluenviron/mediamtx/internal/protocols/moq/catalog"
+	"github.com/bluenviron/mediamtx/internal/protocols/moq/controlmessage"
+	"github.com/bluenviron/mediamtx/internal/protocols/moq/parameter"
+	"github.com/bluenviron/mediamtx/internal/protocols/moq/subgroup"
+	"github.com/bluenviron/mediamtx/internal/protocols/webrtc"
+	"github.com/bluenviron/mediamtx/internal/protocols/whip"
 	"github.com/bluenviron/mediamtx/internal/test"
 	"github.com/bluenviron/mediamtx/internal/verifrt"
 )
@@ -48,6 +60,8 @@ import (
 type vf03Scen struct {
 	ID     int    `json:"id"`
 	Proto  string `json:"proto"`
+	Mode   string `json:"mode"`
+	Place  string `json:"place"`
 	Action string `json:"action"`
 	Name   string `json:"name"`
 	Cls    string `json:"cls"`
@@ -70,6 +84,7 @@ type vf03Event struct {
 	Proto   string `json:"proto"`
 	OK      bool   `json:"ok"`
 	Changes bool   `json:"changes"`
+	Feed    bool   `json:"feed"` // asked for the harness's own publisher that feeds a read scenario
 	Prep    bool   `json:"prep"` // a reload made before the client's first request (gives the path its own entry)
 }
 
@@ -85,7 +100,10 @@ func (r *vf03Recorder) Authenticate(req *auth.Request) (string, *auth.Error) {
 	if req.Query == vf03ProbeQuery {
 		return user, err // the harness asking which configuration is in force: not a client
 	}
-	e := vf03Event{Op: "auth", Action: string(req.Action), Path: req.Path, Proto: string(req.Protocol), OK: err == nil}
+	e := vf03Event{
+		Op: "auth", Action: string(req.Action), Path: req.Path, Proto: string(req.Protocol), OK: err == nil,
+		Feed: req.Query == vf03FeedQuery,
+	}
 	if req.Credentials != nil {
 		e.User, e.Pass = req.Credentials.User, req.Credentials.Pass
 	}
@@ -152,6 +170,8 @@ type vf03Env struct {
 	rtmp string
 	hls  string
 	srt  string
+	wrtc string
+	moq  string
 }
 
 func vf03FreeUDPPort(t testing.TB) int {
@@ -167,15 +187,28 @@ func vf03StartCore(t testing.TB, users []vf03User) *vf03Env {
 	var p *Core
 	var ports []int
 	for attempt := 0; attempt < 5; attempt++ {
-		ports = append(vf03FreePorts(t, 4), vf03FreeUDPPort(t))
+		ports = append(vf03FreePorts(t, 6), vf03FreeUDPPort(t), vf03FreeUDPPort(t), vf03FreeUDPPort(t), vf03FreeUDPPort(t))
+		dir := t.TempDir()
+		certFile, keyFile := filepath.Join(dir, "moq.crt"), filepath.Join(dir, "moq.key")
+		if err := os.WriteFile(certFile, test.TLSCertPub, 0o600); err != nil {
+			t.Fatal(err)
+		}
+		if err := os.WriteFile(keyFile, test.TLSCertKey, 0o600); err != nil {
+			t.Fatal(err)
+		}
 		var b strings.Builder
 		fmt.Fprintf(&b, "logLevel: error\nreadTimeout: 20s\nwriteTimeout: 20s\n")
 		fmt.Fprintf(&b, "api: yes\napiAddress: 127.0.0.1:%d\n", ports[0])
 		fmt.Fprintf(&b, "rtsp: yes\nrtspTransports: [tcp]\nrtspEncryption: \"no\"\nrtspAddress: 127.0.0.1:%d\n", ports[1])
 		fmt.Fprintf(&b, "rtmp: yes\nrtmpEncryption: \"no\"\nrtmpAddress: 127.0.0.1:%d\n", ports[2])
 		fmt.Fprintf(&b, "hls: yes\nhlsAddress: 127.0.0.1:%d\nhlsTrustedProxies: [127.0.0.1]\nhlsVariant: mpegts\n", ports[3])
-		fmt.Fprintf(&b, "srt: yes\nsrtAddress: 127.0.0.1:%d\n", ports[4])
-		fmt.Fprintf(&b, "webrtc: no\nmoq: no\nmetrics: no\npprof: no\nplayback: no\n")
+		fmt.Fprintf(&b, "srt: yes\nsrtAddress: 127.0.0.1:%d\n", ports[6])
+		fmt.Fprintf(&b, "webrtc: yes\nwebrtcAddress: 127.0.0.1:%d\nwebrtcTrustedProxies: [127.0.0.1]\n", ports[4])
+		fmt.Fprintf(&b, "webrtcLocalUDPAddress: :%d\nwebrtcLocalTCPAddress: ''\nwebrtcICEServers2: []\n", ports[7])
+		fmt.Fprintf(&b, "moq: yes\nmoqHTTP2Address: 127.0.0.1:%d\nmoqHTTP3Address: 127.0.0.1:%d\nmoqQUICAddress: 127.0.0.1:%d\n",
+			ports[5], ports[8], ports[9])
+		fmt.Fprintf(&b, "moqServerCert: %s\nmoqServerKey: %s\n", certFile, keyFile)
+		fmt.Fprintf(&b, "metrics: no\npprof: no\nplayback: no\n")
 		fmt.Fprintf(&b, "authInternalUsers:\n")
 		for _, u := range users {
 			fmt.Fprintf(&b, "- user: %s\n  pass: %q\n  ips: [%s]\n  permissions:\n", u.User, u.Pass, strings.Join(u.IPs, ", "))
@@ -209,11 +242,16 @@ func vf03StartCore(t testing.TB, users []vf03User) *vf03Env {
 		rtsp: fmt.Sprintf("127.0.0.1:%d", ports[1]),
 		rtmp: fmt.Sprintf("127.0.0.1:%d", ports[2]),
 		hls:  fmt.Sprintf("127.0.0.1:%d", ports[3]),
-		srt:  fmt.Sprintf("127.0.0.1:%d", ports[4]),
+		srt:  fmt.Sprintf("127.0.0.1:%d", ports[6]),
+		wrtc: fmt.Sprintf("127.0.0.1:%d", ports[4]),
+		moq:  fmt.Sprintf("127.0.0.1:%d", ports[9]),
 	}
 }
 
-const vf03ProbeQuery = "vfprobe=1"
+const (
+	vf03ProbeQuery = "vfprobe=1"
+	vf03FeedQuery  = "vffeed=1"
+)
 
 // inForce asks the real path manager (through its request channel) which configuration it
 // resolves the name to, and renders it field by field (JSON of the entry, plus whether it is a
@@ -305,12 +343,12 @@ func (e *vf03Env) attached(s *vf03Scen, wait time.Duration) bool {
 		data, err := e.p.pathManager.APIPathsGet(s.Name)
 		if err == nil {
 			if s.Action == "publish" {
-				want := map[string]string{"rtsp": "rtspSession", "rtmp": "rtmpConn", "srt": "srtConn", "pm": "vf03Direct"}[s.Proto]
+				want := map[string]string{"rtsp": "rtspSession", "rtmp": "rtmpConn", "srt": "srtConn", "pm": "vf03Direct", "webrtc": "webRTCSession", "moq": "moqSession"}[s.Proto]
 				if data.Source != nil && string(data.Source.Type) == want {
 					return true
 				}
 			} else {
-				want := map[string]string{"rtsp": "rtspSession", "rtmp": "rtmpConn", "srt": "srtConn", "hls": "hlsSession"}[s.Proto]
+				want := map[string]string{"rtsp": "rtspSession", "rtmp": "rtmpConn", "srt": "srtConn", "hls": "hlsSession", "webrtc": "webRTCSession", "moq": "moqSession"}[s.Proto]
 				for _, r := range data.Readers {
 					if string(r.Type) == want {
 						return true
@@ -340,7 +378,7 @@ func (e *vf03Env) rtspClient() *gortsplib.Client {
 // a publisher admitted for everything, so that a reader has something to read
 func (e *vf03Env) feed(s *vf03Scen) func() {
 	c := e.rtspClient()
-	err := c.StartRecording("rtsp://alice:pw@"+e.rtsp+"/"+s.Name,
+	err := c.StartRecording("rtsp://alice:pw@"+e.rtsp+"/"+s.Name+"?"+vf03FeedQuery,
 		&description.Session{Medias: []*description.Media{test.UniqueMediaH264()}})
 	if err != nil {
 		e.t.Fatalf("vf03: scenario %d: cannot publish the stream to read: %v", s.ID, err)
@@ -512,6 +550,12 @@ func (e *vf03Env) play(s *vf03Scen) (note string) {
 		}
 		return note + fmt.Sprintf(" attached=%v", e.attachedNow(s, true))
 
+	case "webrtc/publish", "webrtc/read":
+		return e.playWebRTC(s)
+
+	case "moq/publish", "moq/read":
+		return e.playMoQ(s)
+
 	case "hls/read":
 		stop := e.feed(s)
 		defer stop()
@@ -550,6 +594,208 @@ func (e *vf03Env) play(s *vf03Scen) (note string) {
 	}
 	e.t.Fatalf("vf03: unknown scenario kind %s/%s", s.Proto, s.Action)
 	return ""
+}
+
+// vf03Headers adds the forwarded client address and the credentials (where the scenario places
+// them) to every request of an HTTP client.
+type vf03Headers struct {
+	base http.RoundTripper
+	s    *vf03Scen
+	// a client that posts its offer right away: the WHIP client's preliminary OPTIONS request (which
+	// the server authenticates on its own) is answered here and never reaches the server
+	noOptions bool
+}
+
+func (h *vf03Headers) RoundTrip(req *http.Request) (*http.Response, error) {
+	if h.noOptions && req.Method == http.MethodOptions {
+		return &http.Response{
+			StatusCode: http.StatusNoContent, Status: "204 No Content", Proto: "HTTP/1.1", ProtoMajor: 1, ProtoMinor: 1,
+			Header: http.Header{}, Body: http.NoBody, Request: req,
+		}, nil
+	}
+	req = req.Clone(req.Context())
+	req.Header.Set("X-Forwarded-For", h.s.IP)
+	if h.s.User != "" || h.s.Pass != "" {
+		switch h.s.Place {
+		case "basic":
+			req.SetBasicAuth(h.s.User, h.s.Pass)
+		case "bearer":
+			req.Header.Set("Authorization", "Bearer "+h.s.User+":"+h.s.Pass)
+		case "query":
+			q := req.URL.Query()
+			q.Set("user", h.s.User)
+			q.Set("pass", h.s.Pass)
+			req.URL.RawQuery = q.Encode()
+		}
+	}
+	return h.base.RoundTrip(req)
+}
+
+func (e *vf03Env) playWebRTC(s *vf03Scen) (note string) {
+	tr := &http.Transport{}
+	defer tr.CloseIdleConnections()
+	hc := &http.Client{Transport: &vf03Headers{base: tr, s: s, noOptions: s.Mode == "full"}, Timeout: 15 * time.Second}
+	ep := map[string]string{"publish": "whip", "read": "whep"}[s.Action]
+	rawURL := "http://" + e.wrtc + "/" + s.Name + "/" + ep
+
+	if s.Mode == "http" {
+		// the decision side only: OPTIONS (authenticated by the HTTP handler itself), then a POST whose
+		// body is no usable offer: the session authenticates before it looks at the offer
+		if oreq, err := http.NewRequest(http.MethodOptions, rawURL, nil); err == nil {
+			if ores, err2 := hc.Do(oreq); err2 == nil {
+				ores.Body.Close()
+				note = fmt.Sprintf("options %d ", ores.StatusCode)
+			}
+		}
+		req, err := http.NewRequest(http.MethodPost, rawURL, bytes.NewReader([]byte("v=0\r\n")))
+		if err != nil {
+			e.t.Fatal(err)
+		}
+		req.Header.Set("Content-Type", "application/sdp")
+		res, err := hc.Do(req)
+		if err != nil {
+			e.t.Fatalf("vf03: scenario %d: POST %s: %v", s.ID, rawURL, err)
+		}
+		res.Body.Close()
+		return note + fmt.Sprintf("post %d attached=%v", res.StatusCode, e.attachedNow(s, false))
+	}
+
+	u, err := url.Parse(rawURL)
+	if err != nil {
+		e.t.Fatal(err)
+	}
+	ctx, cancel := context.WithTimeout(context.Background(), 14*time.Second)
+	defer cancel()
+
+	if s.Action == "publish" {
+		track := &webrtc.OutboundTrack{Caps: pwebrtc.RTPCodecCapability{
+			MimeType: pwebrtc.MimeTypeH264, ClockRate: 90000,
+			SDPFmtpLine: "level-asymmetry-allowed=1;packetization-mode=1;profile-level-id=42e01f",
+		}}
+		c := &whip.Client{HTTPClient: hc, URL: u, Log: test.NilLogger, Publish: true, OutboundTracks: []*webrtc.OutboundTrack{track}}
+		if err = c.Initialize(ctx); err != nil {
+			if s.Reload != "none" {
+				e.reload(s)
+			}
+			return "whip: " + err.Error() + fmt.Sprintf(" attached=%v", e.attachedNow(s, false))
+		}
+		defer c.Close() //nolint:errcheck
+		// authorized (FindPathConf) when the offer was accepted; the publisher is attached only when
+		// the tracks arrive: the reload goes in between
+		if s.Reload != "none" {
+			e.reload(s)
+		}
+		stop := make(chan struct{})
+		defer close(stop)
+		go func() {
+			for i := 0; ; i++ {
+				track.WriteRTP(&rtp.Packet{ //nolint:errcheck
+					Header:  rtp.Header{Version: 2, Marker: true, PayloadType: 96, SequenceNumber: uint16(100 + i), Timestamp: uint32(i) * 9000, SSRC: 5634},
+					Payload: []byte{5, 1, 2, 3, 4},
+				})
+				select {
+				case <-stop:
+					return
+				case <-time.After(80 * time.Millisecond):
+				}
+			}
+		}()
+		return fmt.Sprintf("attached=%v", e.attachedNow(s, true))
+	}
+
+	stopFeed := e.feed(s)
+	defer stopFeed()
+	c := &whip.Client{HTTPClient: hc, URL: u, Log: test.NilLogger}
+	done := make(chan error, 1)
+	go func() { done <- c.Initialize(ctx) }()
+	// the session is a reader of the path from the moment it was admitted (no media is sent here,
+	// so the client gives up after its track timeout)
+	att := e.attached(s, 4*time.Second)
+	s.attachedSeen = &att
+	cancel()
+	if err = <-done; err == nil {
+		c.Close() //nolint:errcheck
+		return "whep: connected"
+	}
+	return "whep: " + err.Error()
+}
+
+func (e *vf03Env) playMoQ(s *vf03Scen) (note string) {
+	if s.Action == "read" {
+		stop := e.feed(s)
+		defer stop()
+	}
+	ctx, cancel := context.WithTimeout(context.Background(), 12*time.Second)
+	defer cancel()
+	conn, err := quic.DialAddr(ctx, e.moq, &tls.Config{
+		InsecureSkipVerify: true, //nolint:gosec
+		NextProtos:         []string{"moqt-19"},
+	}, &quic.Config{EnableDatagrams: true})
+	if err != nil {
+		e.t.Fatalf("vf03: scenario %d: moq dial: %v", s.ID, err)
+	}
+	defer conn.CloseWithError(0, "") //nolint:errcheck
+	fail := func(what string, err error) string {
+		return what + ": " + err.Error() + fmt.Sprintf(" attached=%v", e.attachedNow(s, false))
+	}
+	setupStream, err := conn.AcceptUniStream(ctx)
+	if err != nil {
+		return fail("setup", err)
+	}
+	if _, err = controlmessage.Read(setupStream); err != nil {
+		return fail("setup read", err)
+	}
+	clientSetup, err := conn.OpenUniStreamSync(ctx)
+	if err != nil {
+		return fail("setup open", err)
+	}
+	if _, err = clientSetup.Write(controlmessage.Setup{Path: "/" + s.Name}.Marshal()); err != nil {
+		return fail("setup write", err)
+	}
+	params := parameter.Parameters{}
+	if s.User != "" || s.Pass != "" {
+		params = append(params, &parameter.AuthorizationToken{
+			AliasType:  parameter.AuthorizationTokenAliasTypeUseValue,
+			TokenType:  1,
+			TokenValue: []byte("Basic " + base64.StdEncoding.EncodeToString([]byte(s.User+":"+s.Pass))),
+		})
+	}
+	if s.Action == "publish" {
+		cat, _ := json.Marshal(catalog.Catalog{Version: 1, Tracks: []catalog.Track{{
+			Name: "0", Packaging: "loc", IsLive: true, Codec: "avc3.640028",
+		}}})
+		catalogData, err2 := conn.OpenUniStreamSync(ctx)
+		if err2 != nil {
+			return fail("catalog open", err2)
+		}
+		if _, err2 = catalogData.Write((&subgroup.SubGroup{
+			Header:  subgroup.Header{FirstObject: true, TrackAlias: 0, GroupID: 0},
+			Objects: []subgroup.Object{{Payload: cat}},
+		}).Marshal()); err2 != nil {
+			return fail("catalog write", err2)
+		}
+		catalogData.Close() //nolint:errcheck
+	}
+	bidi, err := conn.OpenStreamSync(ctx)
+	if err != nil {
+		return fail("request open", err)
+	}
+	var msg []byte
+	if s.Action == "publish" {
+		msg = controlmessage.Publish{RequestID: 1, TrackName: ".catalog", TrackAlias: 0, Parameters: params}.Marshal()
+	} else {
+		msg = controlmessage.Subscribe{RequestID: 1, TrackName: ".catalog", Parameters: params}.Marshal()
+	}
+	if _, err = bidi.Write(msg); err != nil {
+		return fail("request write", err)
+	}
+	bidi.SetReadDeadline(time.Now().Add(10 * time.Second)) //nolint:errcheck
+	reply, err := controlmessage.Read(bidi)
+	if err != nil {
+		return fail("reply", err)
+	}
+	_, refused := reply.(*controlmessage.RequestError)
+	return fmt.Sprintf("reply %T attached=%v", reply, e.attachedNow(s, !refused))
 }
 
 // attachedNow looks the client up in the path manager; after a success it allows the server a
@@ -607,7 +853,7 @@ func TestVerif_C03_Scenarios(t *testing.T) {
 			}
 			// the log is read after the attachment was looked up: everything that led to it is in it
 			out.Emit(map[string]any{
-				"id": s.ID, "proto": s.Proto, "action": s.Action, "name": s.Name, "cls": s.Cls, "cred": s.Cred,
+				"id": s.ID, "proto": s.Proto, "mode": s.Mode, "place": s.Place, "action": s.Action, "name": s.Name, "cls": s.Cls, "cred": s.Cred,
 				"user": s.User, "pass": s.Pass, "ip": s.IP, "reload": s.Reload,
 				"events": env.rec.eventsOf(s.Name), "attached": att, "note": note,
 			})
